@@ -8,7 +8,8 @@ from . import boot                                      # noqa: F401
 from .runner import exc_sig
 
 import radical.pilot.constants as rpc
-from radical.pilot.resource_config import Node, NodeList, RankRequirements
+from radical.pilot.resource_config import (Node, NodeList, RankRequirements, NumaNode,
+                                           NumaDomain)
 
 EPS = 1e-9
 OCC = [1.0, 1.0, 1.0, 0.5, 0.25]
@@ -38,8 +39,14 @@ def nl_cases(draw):
             ops.append(['find', rr, draw(st.integers(1, 6))])
         else:
             ops.append(['release', draw(st.integers(0, 9))])
+    numa = 0
+    if c >= 2 and draw(st.integers(0, 2)) == 0:
+        numa = 2
+        for op in ops:
+            if op[0] == 'find' and draw(st.booleans()):
+                op[1]['numa'] = True
     return {'kind': 'nodelist', 'n': n, 'c': c, 'g': g, 'lfs': lfs, 'mem': mem,
-            'bc': bc, 'bg': bg, 'ops': ops}
+            'bc': bc, 'bg': bg, 'ops': ops, 'numa': numa}
 
 
 def run_nodelist(case):
@@ -47,7 +54,7 @@ def run_nodelist(case):
     P = []
     stats = {'finds_ok': 0, 'finds_none': 0, 'finds_invalid': 0, 'releases': 0,
              'shared': 0, 'partial_occ': 0, 'blocked': 0, 'multi_slot': 0,
-             'out_of_order': 0}
+             'out_of_order': 0, 'numa': 0}
     n, c, g = max(1, case['n']), max(1, case['c']), max(0, case['g'])
     bc = set(i % c for i in case.get('bc', []))
     bg = set(i % g for i in case.get('bg', [])) if g else set()
@@ -59,7 +66,15 @@ def run_nodelist(case):
             'lfs': case['lfs'], 'mem': case['mem']} for i in range(n)]
     if bc or bg:
         stats['blocked'] = 1
-    nl = NodeList(nodes=[Node(copy.deepcopy(r)) for r in raw])
+    if case.get('numa'):
+        # as Pilot.nodelist builds it when the resource manager reports a numa_domain_map
+        half = c // 2
+        dmap = {0: NumaDomain(cores=list(range(0, half)), gpus=list(range(0, g // 2))),
+                1: NumaDomain(cores=list(range(half, c)), gpus=list(range(g // 2, g)))}
+        nl = NodeList(nodes=[NumaNode(copy.deepcopy(r), dmap) for r in raw])
+        stats['numa'] = 1
+    else:
+        nl = NodeList(nodes=[Node(copy.deepcopy(r)) for r in raw])
     nl.verify()
 
     held = []          # list of slot lists (one per successful find)
@@ -129,7 +144,9 @@ def run_nodelist(case):
             rrd, ns = op[1], max(1, int(op[2]))
             rr = RankRequirements(n_cores=rrd['n_cores'], core_occupation=rrd['core_occupation'],
                                   n_gpus=rrd['n_gpus'], gpu_occupation=rrd['gpu_occupation'],
-                                  lfs=rrd['lfs'], mem=rrd['mem'])
+                                  lfs=rrd['lfs'], mem=rrd['mem'],
+                                  numa=bool(rrd.get('numa') and case.get('numa')))
+            numa_req = bool(rrd.get('numa') and case.get('numa'))
             impossible = (rrd['n_cores'] > c or rrd['n_gpus'] > g or
                           rrd['lfs'] > case['lfs'] or rrd['mem'] > case['mem'])
             try:
@@ -161,8 +178,14 @@ def run_nodelist(case):
             if len(slots) != ns:
                 P.append(('C02', 'nodelist:slot_count', 'asked %d got %d' % (ns, len(slots))))
             for s in slots:
-                if not (0 <= s.node_index < n) or nl.nodes[s.node_index].name != s.node_name:
+                if not (0 <= s.node_index < n) or \
+                        (nl.nodes[s.node_index].name != s.node_name and not numa_req):
                     P.append(('C02', 'nodelist:slot_node_invalid', str(s)))
+                if numa_req and (len(ci) if False else True):
+                    half = c // 2
+                    doms = set(0 if ro.index < half else 1 for ro in s.cores)
+                    if len(doms) > 1:
+                        P.append(('C02', 'nodelist:numa_slot_spans_domains', str(s)))
                 ci = [ro.index for ro in s.cores]
                 gi = [ro.index for ro in s.gpus]
                 if len(ci) != rrd['n_cores'] or len(set(ci)) != len(ci) or \
